@@ -254,6 +254,10 @@ def render_cases(draw):
 # ---------------------------------------------------------------------------
 
 
+# coverage-guided stage (atheris drives these Hypothesis shards, see vf/run.py): {tier: {shard kind: (shards, executions)}}
+CG = {'thorough': {'main': (8, 4000)}}
+
+
 def plan(tier, seed, scale=1.0):
     n = max(16, int(BOUNDS[tier]["programs"] * scale))
     specs = []
